@@ -41,6 +41,8 @@ type vfRecorder struct {
 	addr     string
 	methods  map[string]vfshared.Method
 	Respond  func(full string, req proto.Message) (proto.Message, error) // nil => empty response
+	// OnStream, when set, serves streaming calls (default: record and end the stream at once)
+	OnStream func(full string, md metadata.MD, stream grpc.ServerStream) error
 	listener net.Listener
 }
 
@@ -70,6 +72,9 @@ func (r *vfRecorder) handle(_ any, stream grpc.ServerStream) error {
 	}
 	if m.ClientStream || m.ServerStream {
 		r.record(vfCall{Method: full, MD: md})
+		if r.OnStream != nil {
+			return r.OnStream(full, md, stream)
+		}
 		return nil // end the stream at once
 	}
 	req := vfshared.NewMessage(m.In)
